@@ -1451,32 +1451,34 @@ Proof. reflexivity. Qed.
 (* ------------------------------------------------------------------------------------- *)
 
 (* dispatch of wb_sheet on the record kinds the writer emits *)
-Lemma wb_sheet_bof : forall d c rest tbl fp cells,
-  wb_sheet (Ok (2057, d, c) :: rest) tbl fp cells = wb_sheet rest tbl fp cells.
+(* the sheet's own BOF opens substream 1; the cell records of the sheet run at depth 1 *)
+Lemma wb_sheet_bof : forall d c rest tbl fp cells dep,
+  wb_sheet (Ok (2057, d, c) :: rest) tbl fp cells dep = wb_sheet rest tbl fp cells (dep + 1).
 Proof. reflexivity. Qed.
 Lemma wb_sheet_eof : forall d c rest tbl fp cells,
-  wb_sheet (Ok (10, d, c) :: rest) tbl fp cells = Ok cells.
+  wb_sheet (Ok (10, d, c) :: rest) tbl fp cells 1 = Ok cells.
 Proof. reflexivity. Qed.
 Lemma wb_sheet_labelsst : forall d c rest tbl fp cells,
-  wb_sheet (Ok (253, d, c) :: rest) tbl fp cells =
+  wb_sheet (Ok (253, d, c) :: rest) tbl fp cells 1 =
   do x <- parse_label_sst d tbl;
-  wb_sheet rest tbl fp (cells ++ match x with Some x => [x] | None => [] end).
+  wb_sheet rest tbl fp (cells ++ match x with Some x => [x] | None => [] end) 1.
 Proof. reflexivity. Qed.
 Lemma wb_sheet_label : forall d c rest tbl fp cells,
-  wb_sheet (Ok (516, d, c) :: rest) tbl fp cells =
+  wb_sheet (Ok (516, d, c) :: rest) tbl fp cells 1 =
   do x <- parse_label d;
-  wb_sheet rest tbl fp (cells ++ match x with Some x => [x] | None => [] end).
+  wb_sheet rest tbl fp (cells ++ match x with Some x => [x] | None => [] end) 1.
 Proof. reflexivity. Qed.
 Lemma wb_sheet_string : forall d c rest tbl fp cells,
-  wb_sheet (Ok (519, d, c) :: rest) tbl fp cells =
+  wb_sheet (Ok (519, d, c) :: rest) tbl fp cells 1 =
   do s <- string_arm d c;
-  wb_sheet rest tbl fp (cells ++ [(fst fp, snd fp, s)]).
+  wb_sheet rest tbl fp (cells ++ [(fst fp, snd fp, s)]) 1.
 Proof. reflexivity. Qed.
 Lemma wb_sheet_formula_stub : forall row col c rest tbl fp cells,
-  wb_sheet (Ok (6, formula_stub_body row col 15, c) :: rest) tbl fp cells =
-  wb_sheet rest tbl (row, col) cells.
+  wb_sheet (Ok (6, formula_stub_body row col 15, c) :: rest) tbl fp cells 1 =
+  wb_sheet rest tbl (row, col) cells 1.
 Proof.
-  intros. cbn [wb_sheet]. change (6 =? 253) with false. change (6 =? 516) with false.
+  intros. cbn [wb_sheet]. change (6 =? 2057) with false. change (1 <? 1) with false. cbv iota.
+  change (6 =? 253) with false. change (6 =? 516) with false.
   change (6 =? 519) with false. change (6 =? 6) with true. cbv iota.
   unfold formula_stub_body at 1.
   replace (len (formula_stub_body row col 15) <? 20) with false by reflexivity.
@@ -1521,7 +1523,7 @@ Qed.
 
 Lemma sheet_cells_ok : forall cells later tbl fp acc,
   forallb legal_cell cells = true -> starts_continue later = false ->
-  wb_sheet (records (flat_map cell_records cells ++ eof_rec ++ later)) tbl fp acc =
+  wb_sheet (records (flat_map cell_records cells ++ eof_rec ++ later)) tbl fp acc 1 =
   Ok (acc ++ flat_map (cell_text tbl) cells).
 Proof.
   induction cells as [|c cells IH]; intros later tbl fp acc Hl Hlater.
@@ -1561,13 +1563,36 @@ Qed.
 
 Lemma sheet_stream_ok : forall sh later tbl,
   forallb legal_cell (sh_cells sh) = true -> starts_continue later = false ->
-  wb_sheet (records (sheet_stream sh ++ later)) tbl (0, 0) [] =
+  wb_sheet (records (sheet_stream sh ++ later)) tbl (0, 0) [] 0 =
   Ok (flat_map (cell_text tbl) (sh_cells sh)).
 Proof.
   intros sh later tbl Hl Hlater. unfold sheet_stream. rewrite <- !app_assoc.
   rewrite records_plain; [| len_small | apply (cells_not_continue _ later Hl)].
-  rewrite wb_sheet_bof. fold eof_rec.
+  rewrite wb_sheet_bof. change (0 + 1) with 1. fold eof_rec.
   rewrite (sheet_cells_ok _ later tbl (0, 0) [] Hl Hlater). reflexivity.
+Qed.
+
+(* a substream nested in the sheet (the chart of an embedded chart object: BOF, its records —
+   among them LABEL / STRING / FORMULA records of the series cache —, EOF) contributes no text cell
+   and does not end the sheet (fix of audit-2 finding XLS-2, modelled by [depth]) *)
+Definition plain_inner (r : outcome rec_item) : Prop :=
+  exists t d c, r = Ok (t, d, c) /\ t <> 2057 /\ t <> 10.
+Lemma wb_sheet_inner_skipped : forall inner rest tbl fp cells,
+  Forall plain_inner inner ->
+  wb_sheet (inner ++ rest) tbl fp cells 2 = wb_sheet rest tbl fp cells 2.
+Proof.
+  induction inner as [|r inner IH]; intros rest tbl fp cells H; [reflexivity|].
+  inversion H as [|? ? (t & d & c & -> & Hb & He) Hin]; subst.
+  cbn [app wb_sheet]. replace (t =? 2057) with false by lia. change (1 <? 2) with true. cbv iota.
+  replace (t =? 10) with false by lia. apply IH, Hin.
+Qed.
+Lemma wb_sheet_nested_skipped : forall d0 c0 inner d1 c1 rest tbl fp cells,
+  Forall plain_inner inner ->
+  wb_sheet (Ok (2057, d0, c0) :: inner ++ Ok (10, d1, c1) :: rest) tbl fp cells 1 =
+  wb_sheet rest tbl fp cells 1.
+Proof.
+  intros. rewrite wb_sheet_bof. change (1 + 1) with 2.
+  rewrite (wb_sheet_inner_skipped inner _ tbl fp cells H). reflexivity.
 Qed.
 
 (* ------------------------------------------------------------------------------------- *)
@@ -1954,15 +1979,17 @@ Proof.
   - exfalso. apply HF. left. reflexivity.
 Qed.
 
-Lemma wb_sheet_total : forall recs strings fp cells,
+Lemma wb_sheet_total : forall recs strings fp cells dep,
   ~ In Panic recs -> ~ In OutOfFuel recs ->
-  wb_sheet recs strings fp cells <> Panic /\ wb_sheet recs strings fp cells <> OutOfFuel.
+  wb_sheet recs strings fp cells dep <> Panic /\ wb_sheet recs strings fp cells dep <> OutOfFuel.
 Proof.
-  induction recs as [|r recs IH]; intros strings fp cells HP HF; [split; discriminate|].
+  induction recs as [|r recs IH]; intros strings fp cells dep HP HF; [split; discriminate|].
   assert (HP' : ~ In Panic recs) by (intros H; apply HP; right; exact H).
   assert (HF' : ~ In OutOfFuel recs) by (intros H; apply HF; right; exact H).
   destruct r as [[[t d] c]|e| |]; cbn [wb_sheet].
-  - destruct (t =? 253).
+  - destruct (t =? 2057); [apply IH; assumption|].
+    destruct (1 <? dep); [apply IH; assumption|].
+    destruct (t =? 253).
     { pose proof (no_panic_parse_label_sst d strings) as [H1 H2].
       destruct (parse_label_sst d strings); cbn [obind]; try congruence;
         try (split; discriminate).
@@ -1998,8 +2025,8 @@ Proof.
   cbn [wb_sheets]. unfold get_from. destruct (pos <=? len stream); [|split; discriminate].
   cbn [obind].
   destruct (no_panic_record_iter (drop pos stream)) as (_ & _ & H3 & H4).
-  pose proof (wb_sheet_total (records (drop pos stream)) strings (0, 0) [] H3 H4) as [H1 H2].
-  destruct (wb_sheet (records (drop pos stream)) strings (0, 0) []); cbn [obind];
+  pose proof (wb_sheet_total (records (drop pos stream)) strings (0, 0) [] 0 H3 H4) as [H1 H2].
+  destruct (wb_sheet (records (drop pos stream)) strings (0, 0) [] 0); cbn [obind];
     try congruence; try (split; discriminate).
   pose proof (IH stream strings) as [I1 I2].
   destruct (wb_sheets stream strings l); cbn [obind]; try congruence; split; discriminate.
